@@ -431,6 +431,32 @@ pub fn check_state(w: &World, hist: &[Op], singles: &[Q], pairs: &[Q], t: &mut T
 }
 
 pub fn run(ctx: &Ctx) {
+    // thorough tier: services that have been up for more than a minute, in the background
+    let longevity = if ctx.eff_tier() == crate::engine::Tier::Thorough && crate::engine::loopback_multicast_works() {
+        Some(std::thread::spawn(|| {
+            let a = std::thread::spawn(|| super::longev::still_answers_after("C13", false, 75));
+            let mut f = super::longev::still_answers_after("C13", true, 75);
+            f.extend(a.join().unwrap_or_default());
+            f
+        }))
+    } else {
+        None
+    };
+    run_spaces(ctx);
+    if let Some(h) = longevity {
+        let f = h.join().unwrap_or_default();
+        let mut t = Tally::default();
+        t.evals += 2;
+        t.nontrivial += 2;
+        t.transitions += 4;
+        t.outcome(if f.is_empty() { "replies-exact" } else { "replies-wrong" });
+        ctx.merge(t);
+        ctx.violations(f);
+        ctx.space("long-lived services (thorough tier only; sync and tokio ServiceDiscovery, in the background of the other spaces): an SRV question for the service's own instance is answered, a peer with TTL 2 is heard, and 75 s later the same question is still answered", 2, "complete for the two services");
+    }
+}
+
+fn run_spaces(ctx: &Ctx) {
     let depth = ctx.eff_tier().pick(4usize, 6usize);
     ctx.set_rule("explicit-state BFS over histories of add-authoritative / add-cached / remove / clear on a 15-record menu (owners foo.bar.local, foobar.local, bar.local, local, _my.local, _mysrv.local, a._mysrv.local; classes IN/CH; A, AAAA, SRV, TXT, PTR) to the stated depth, each transition executed on the real ResourceRecordManager; states deduplicated by (record -> kind map, owners touched since the last clear); in every state every single question over 8 owners x 6 types x 3 classes x unicast bit and every ordered pair from a 24-question menu goes through the real build_reply and is judged by the reply model. non-trivial = state holds at least one record");
     ctx.assume("state abstraction: the real trie's shape is a function of the set of keys inserted since the last clear, which the fingerprint includes; validated by the insertion-order differential (every permutation of every <=3-record store gives the same verdicts)");
